@@ -129,6 +129,12 @@ func prepare(caseID int, sub string, pcfg map[string]any, ccfg *plugin.ClientCon
 // pid of the plugin process (0 if it never wrote its pid file).
 func (l *launched) pid() int {
 	b, err := os.ReadFile(l.PidFile)
+	if err == nil {
+		// (a file without a number in it counts as no file)
+		if n, _ := strconv.Atoi(strings.TrimSpace(string(b))); n <= 0 {
+			err = os.ErrNotExist
+		}
+	}
 	if err != nil {
 		// killed before it could write the file: a custom runner of the harness knows the pid anyway
 		if l.Proc != nil && l.Proc.Cmd != nil && l.Proc.Cmd.Process != nil {
